@@ -344,6 +344,18 @@ def run_model(case, ctx):
             l2 = np.asarray(ml.smse_loss(Y2, target, None))
             if abs(l1[b] - l2[b]) > 1e-5 * max(1.0, abs(l1[b])):
                 viols.append(viol("loss-crosstalk", f"per-entry loss of entry {b} changed when other entries were replaced; {key}"))
+            # per-timestep loss, every batch reduction: what is reported for a sample is what that sample gives alone
+            steps = int(rng.integers(2, 4))
+            sig_t = [(tt, steps * int(rng.integers(1, 3))) for tt in list(Yb.keys())[:2]]
+            P = mlgen.random_multi(rng, sig_t, D, tuple(Yb.get_spatial_dims()), torus, lead=(nb,))
+            T = mlgen.random_multi(rng, sig_t, D, tuple(Yb.get_spatial_dims()), torus, lead=(nb,))
+            alone = np.stack([np.asarray(ml.timestep_smse_loss(P.get_subset(jnp.array([i])), T.get_subset(jnp.array([i])), steps, "mean")) for i in range(nb)])
+            worst = int(np.argmax(alone.sum(axis=1)))
+            for mode, want in ((None, alone), ("mean", alone.mean(axis=0)), ("max", alone[worst])):
+                got = np.asarray(ml.timestep_smse_loss(P, T, steps, mode))
+                evals += 1
+                if got.shape != want.shape or np.max(np.abs(got - want)) > 1e-4 * max(1.0, float(np.max(np.abs(want)))):
+                    viols.append(viol("timestep-loss-crosstalk", f"timestep_smse_loss(reduce={mode!r}) on a batch of {nb} != the per-sample losses evaluated alone (worst sample {worst}): got {got.tolist()}, alone {want.tolist()}; {key}"))
     except Exception as e:
         import traceback
 
